@@ -8,7 +8,6 @@ Definition time_obs := result verdict.
 Definition verdict_eqb (a b : verdict) : bool := Bool.eqb (fst a) (fst b) && Bool.eqb (snd a) (snd b).
 Definition time_obs_eqb (a b : time_obs) : bool := result_eqb verdict_eqb a b.
 
-Definition fc_keys : list N := [931; 932; 933; 934; 935]%N.
 Definition model_obs (s : text) : list time_obs := map (fun k => eval_93x k s) fc_keys.
 
 (* one entered string with the five observations, in the order of fc_keys *)
